@@ -487,7 +487,7 @@ def region_ok(facts, orc, sym, ver):
     return True
 
 
-@rule("P3", ["C04"], floor=300, doc="every raw memory write/read (bulk slice, raw_write_region) of every library and derived impl lies in a branch "
+@rule("P3", ["C04", "C01"], floor=300, doc="every raw memory write/read (bulk slice, raw_write_region) of every library and derived impl lies in a branch "
       "guarded by the Packed decision of that type: with all guards false no raw event is reachable, and writer and reader "
       "branch on the same guard")
 def p3(facts, tier):
@@ -500,19 +500,19 @@ def p3(facts, tier):
         ts = wire.canon_generics(im["self_ty"], im["generics"])
         lits, guards = W.probe([f], [ts])
         g0 = {g: False for g in guards}
-        l, _, _, _ = W.lang(f, 0, g0, ts)
+        l, _, _, _ = W.lang(f, 0, g0, ts, expand=False)
         raws = [s for s in rx.symbols(l) if isinstance(s, tuple) and s[0] in RAW]
         # a partial region guarded by the pairwise adjacency test (evaluated here from rustc's layout) is legal iff the
         # run of fields really is contiguous in declaration order and every field type is itself byte-identical
         raws = [s for s in raws if not (s[0] == "REGION" and region_ok(facts, orc, s, 0))]
         key = f["id"]
         if raws:
-            yield ob(["C04"], "P3", key, "violation", where(f), f"{f['id']}: raw memory event {raws[0]} is reachable although every Packed "
+            yield ob(["C04", "C01"], "P3", key, "violation", where(f), f"{f['id']}: raw memory event {raws[0]} is reachable although every Packed "
                      f"decision answers no (guards: {sorted(map(repr, guards))})")
         else:
-            l1, _, _, _ = W.lang(f, 0, {g: True for g in guards}, ts)
+            l1, _, _, _ = W.lang(f, 0, {g: True for g in guards}, ts, expand=False)
             has_raw = any(isinstance(s, tuple) and s[0] in RAW for s in rx.symbols(l1))
-            yield ob(["C04"], "P3", key, "pass", where(f), "no raw event without a Packed yes" +
+            yield ob(["C04", "C01"], "P3", key, "pass", where(f), "no raw event without a Packed yes" +
                      (f"; raw path guarded by {sorted(map(repr, guards))}" if has_raw else ""), nontrivial=has_raw)
 
 
